@@ -7,6 +7,7 @@ VERUS = os.environ.get("VERUS", "verus")
 
 # message classes that are verdicts (an obligation the verifier generated and could not prove)
 VERDICT_MSGS = [
+    ("unable to prove post-condition of closure", "closure-post"),
     ("postcondition not satisfied", "post"),
     ("precondition not satisfied", "pre"),
     ("assertion failed", "assert"),
